@@ -63,6 +63,7 @@ def run(ctx):
                               'the padding bytes stay in the chunk body' % (kind, fn), loc=fb.loc if fb else '')
     r.floor(rule, 'padded_header_kinds', len(padded), 2)
     chunk_headers(ctx)
+    padding_arithmetic(ctx)
 
 
 def _find(sym, pred):
@@ -180,3 +181,132 @@ def chunk_headers(ctx, rule='chunk-headers'):
                    'for some message sizes no chunk (or a middle chunk) is marked final', loc=c.loc)
     r.count('chunk_constructions', n)
     r.floor(rule, 'chunk_constructions', n, 2)
+
+
+class _NoEval(Exception):
+    pass
+
+
+def _eval(sym, leaf):
+    """integer value of an extracted arithmetic expression; `leaf(sym)` supplies the value of recognised inputs"""
+    v = leaf(sym)
+    if v is not None:
+        return v
+    k = sym[0]
+    if k == 'k':
+        try:
+            return int(sym[1])
+        except ValueError:
+            raise _NoEval(str(sym)[:60])
+    if k == 'proj' and sym[2] == '.0':
+        return _eval(sym[1], leaf)
+    if k == 'cast':
+        x = _eval(sym[1], leaf)
+        to = sym[-1]
+        bits = {'u8': 8, 'u16': 16, 'u32': 32, 'u64': 64, 'usize': 64}.get(to)
+        if bits is None:
+            raise _NoEval('cast to ' + str(to))
+        return x & ((1 << bits) - 1)
+    if k == 'bin':
+        a, b = _eval(sym[2], leaf), _eval(sym[3], leaf)
+        op = sym[1].replace('WithOverflow', '')
+        if op == 'Add': return a + b
+        if op == 'Sub':
+            if a - b < 0:
+                raise _NoEval('underflow')
+            return a - b
+        if op == 'Mul': return a * b
+        if op == 'BitAnd': return a & b
+        if op == 'BitOr': return a | b
+        if op == 'Shr': return a >> b
+        if op == 'Shl': return a << b
+        raise _NoEval('op ' + sym[1])
+    raise _NoEval(str(sym)[:60])
+
+
+def padding_arithmetic(ctx, rule='padding-arithmetic'):
+    """The padding trailer the sender writes (add_space_for_padding_and_signature) must be what the receiver removes
+    (verify_padding): the byte values and counts are read from MIR as arithmetic expressions over padding_size and are
+    evaluated for every padding size of the mode; the receiver's removal length, an expression over the last two trailer
+    bytes, must equal the number of bytes written."""
+    r, db = ctx.r, ctx.db
+    sb = db.body(SC + 'add_space_for_padding_and_signature'); vb = db.body(SC + 'verify_padding')
+    if sb is None or vb is None:
+        r.lost(rule, 'functions', 'add_space_for_padding_and_signature / verify_padding not found'); return
+    Fs, Fv = ctx.facts(sb), ctx.facts(vb)
+    order = {b_: i for i, b_ in enumerate(sb.reachable_blocks(0))}
+    from .C01 import rpo
+    order = {b_: i for i, b_ in enumerate(rpo(sb))}
+    modes = {1: [], 2: []}
+    for c in sorted([c for c in sb.calls() if c.bb in order], key=lambda c: order[c.bb]):
+        if not re.search(r'encoding::(write_bytes|write_u8)$', c.callee):
+            continue
+        m = None
+        for l, e in Fs.literals_at(c.bb):
+            t = fmt_lit(sb, l)
+            mm = re.search(r'padding_size\(.*\)\.1 eq ([12])$', t)
+            if mm:
+                m = int(mm.group(1))
+        if m is None:
+            continue
+        if c.callee.endswith('write_bytes'):
+            modes[m].append(('bytes', Fs.sym_operand(c.args[1]), Fs.sym_operand(c.args[2])))
+        else:
+            modes[m].append(('u8', Fs.sym_operand(c.args[1]), None))
+    recv = {}
+    for c in vb.calls():
+        if c.callee.endswith('checked_sub') and len(c.args) == 2 and Fv.const_int(Fv.sym_operand(c.args[1])) is None:
+            lits = [fmt_lit(vb, l) for l, e in Fv.literals_at(c.bb)]
+            if any(re.search(r'key_size\(_\d+\) gt 256$', x) for x in lits):
+                recv[2] = Fv.sym_operand(c.args[1])
+            elif any(re.search(r'key_size\(_\d+\) le 256$', x) for x in lits):
+                recv[1] = Fv.sym_operand(c.args[1])
+    if not modes[1] or not modes[2] or 1 not in recv or 2 not in recv:
+        r.lost(rule, 'shape', 'padding writes per mode (%d, %d) / receiver removal lengths (%s) not recognised' % (len(modes[1]), len(modes[2]), sorted(recv))); return
+    def is_p(s):
+        return s[0] == 'proj' and s[2] == '.0' and s[1][0] == 'call' and s[1][1].endswith('SecureChannel::padding_size')
+    def byte_index(s):
+        # Try::branch(Fn::call(closure, tuple{checked_sub(padding_end, k)}))@Continue.0  ->  k
+        t = s
+        if t[0] == 'proj' and t[2] == '.0':
+            t = t[1]
+        if t[0] == 'proj' and t[2] == '@Continue':
+            t = t[1]
+        if t[0] == 'call' and t[1].endswith('Try::branch') and t[2] and t[2][0][0] == 'call' and t[2][0][1].endswith('Fn::call'):
+            args = t[2][0][2]
+            if len(args) == 2 and args[1][0] == 'agg':
+                inner = args[1][4][0] if args[1][4] else None
+                if inner is not None and inner[0] == 'call' and inner[1].endswith('checked_sub') and Fv.const_int(inner[2][1]) is not None:
+                    return Fv.const_int(inner[2][1])
+        return None
+    total = 0
+    for m, rng in ((1, range(1, 257)), (2, range(2, 1027))):
+        bad = None
+        try:
+            for p in rng:
+                leaf = lambda s: p if is_p(s) else None
+                trailer = []
+                for kind, bsym, nsym in modes[m]:
+                    if kind == 'bytes':
+                        trailer += [_eval(bsym, leaf)] * _eval(nsym, leaf)
+                    else:
+                        trailer.append(_eval(bsym, leaf))
+                if len(trailer) != p:
+                    bad = 'padding_size %d: the sender writes %d trailer bytes' % (p, len(trailer)); break
+                def rleaf(s):
+                    k = byte_index(s)
+                    if k is not None:
+                        return trailer[-k] if k <= len(trailer) else 0
+                    return None
+                removed = _eval(recv[m], rleaf)
+                total += 1
+                if removed != p:
+                    bad = ('padding_size %d: the sender writes %d bytes ending in %s, the receiver removes %d' % (p, len(trailer), trailer[-2:], removed)); break
+        except _NoEval as ex:
+            r.lost(rule, 'mode%d' % m, 'padding expression not evaluable (%s)' % ex); continue
+        if bad:
+            r.fail(rule, 'mode%d' % m, 'sender and receiver disagree on the padding trailer (%s padding): %s' % ('one-byte' if m == 1 else 'two-byte', bad), loc=sb.loc)
+        else:
+            r.ok(rule, 'mode%d' % m, '%s padding: for every padding size %d..%d the receiver removes exactly the bytes the sender appended' % ('one-byte' if m == 1 else 'two-byte', rng[0], rng[-1]), loc=sb.loc)
+    r.count('padding_sizes_evaluated', total)
+    r.floor(rule, 'padding_sizes_evaluated', total, 1000)
